@@ -108,7 +108,36 @@ def reused_compiler(R, rng, label):
         R.nontriv(data.hex())
 
 
+# sources at the edge of the front end's acceptance whose emitted code once was invalid (each is run in every run: the random
+# mutants reach them only now and then)
+DIRECTED = [
+    ("bare-return-in-int-function", "export function f (int a) -> int {\n  return;\n}\n"),
+    ("bare-return-in-float-function", "export function f (float a) -> float {\n  return;\n}\n"),
+    ("bare-return-after-expression", "export function f (int a, int b) -> int {\n  a + b;\n  return;\n}\n"),
+    ("empty-int-function", "export function f (int a) -> int {\n}\n"),
+    ("empty-void-function", "export function f (int a) -> void {\n}\n"),
+    ("expression-statement-only", "export function f (float a) -> float {\n  a * 2.0;\n}\n"),
+    ("literal-statement-only", "export function f (float a) -> float {\n  1.5;\n}\n"),
+    ("two-returns", "export function f (int a) -> int {\n  return a;\n  return a + 1;\n}\n"),
+    ("void-with-value-less-return-twice", "export function f (int a) -> void {\n  return;\n  return;\n}\n"),
+]
+
+
 def run_shard(tier, seed, shard, n, R):
+    for i, (dname, dsrc) in enumerate(DIRECTED):
+        if i % n != shard:
+            continue
+        for opt in (False, True):
+            e = wasmrun.emit(dsrc, opt)
+            R.count("compilations")
+            R.count("directed_sources")
+            if not e.out.accepted:
+                R.count("rejected_by_front_end")
+                break
+            if e.refused:
+                R.count("refused")
+                continue
+            judge(R, e, dsrc, opt, "directed:" + dname)
     for j in range(BUDGET[tier]):
         s = (seed * 1000003 + shard) * 100000 + j
         rng = random.Random(s)
